@@ -750,6 +750,7 @@ impl Gen {
         self.feat("match");
         let n = self.decls.data[*decl].ctors.len();
         let mut arms = Vec::new();
+        let mut deferred: Vec<(Pat, Comp)> = Vec::new();
         let mut order: Vec<usize> = (0..n).collect();
         if self.rng.chance(1, 2) {
             self.rng.shuffle(&mut order);
@@ -766,12 +767,26 @@ impl Gen {
                 let n2 = self.decls.data[*d2].ctors.len();
                 if self.cfg.nested_patterns && n2 <= 3 && self.rng.chance(1, 3) {
                     self.feat("nested-ctor-pattern");
-                    for k2 in 0..n2 {
+                    // either one arm per inner constructor, or specific arms for some of them and a general arm for
+                    // the same outer constructor further down (arms overlap: the first that matches is taken)
+                    let specific = if n2 >= 2 && self.rng.chance(1, 2) { 1 + self.rng.below(n2 - 1) } else { n2 };
+                    let mut inner_order: Vec<usize> = (0..n2).collect();
+                    if specific < n2 {
+                        self.feat("overlapping-arms");
+                        self.rng.shuffle(&mut inner_order);
+                    }
+                    for k2 in inner_order.into_iter().take(specific) {
                         let pt2 = self.payload_ty(*d2, targs2, k2);
                         let mut binds = Vec::new();
                         let inner2 = self.gen_pat(&pt2, 0, &mut binds);
                         let body = self.gen_comp(&ctx.with_all(&binds), ty, depth - 1);
                         arms.push((Pat::Ctor(*decl, *ctor, Box::new(Pat::Ctor(*d2, k2, Box::new(inner2)))), body));
+                    }
+                    if specific < n2 {
+                        let mut binds = Vec::new();
+                        let inner = self.gen_pat(&pt, 0, &mut binds);
+                        let body = self.gen_comp(&ctx.with_all(&binds), ty, depth - 1);
+                        deferred.push((Pat::Ctor(*decl, *ctor, Box::new(inner)), body));
                     }
                     continue;
                 }
@@ -787,6 +802,18 @@ impl Gen {
             }
             let body = self.gen_comp(&ctx.with_all(&binds), ty, depth - 1);
             arms.push((Pat::Ctor(*decl, *ctor, Box::new(inner)), body));
+        }
+        // general arms of split constructors come after all other constructor arms
+        arms.extend(deferred);
+        // now and then an arm that can never be taken: a constructor that an earlier arm already covers
+        if self.cfg.nested_patterns && !arms.is_empty() && self.rng.chance(1, 10) {
+            let k = self.rng.below(arms.len());
+            if let Pat::Ctor(d, c, _) = &arms[k].0 {
+                let (d, c) = (*d, *c);
+                self.feat("overlapping-arms");
+                let body = self.gen_comp(ctx, ty, depth - 1);
+                arms.push((Pat::Ctor(d, c, Box::new(Pat::Wild)), body));
+            }
         }
         if cut < n {
             self.feat("match-catch-all");
